@@ -896,6 +896,63 @@ theorem latticeFold_static_is_running_max (h : List Stream) :
       exact ih _ _ _ (by simp)
   simpa using key {} 0 [] (by simp)
 
+theorem aux_zipOf_append (x y a b : List Val) (hlen : x.length = y.length) :
+    zipOf (x ++ a) (y ++ b) = zipOf x y ++ zipOf a b := by
+  induction x generalizing y with
+  | nil =>
+    cases y with
+    | nil => simp [zipOf]
+    | cons _ _ => simp at hlen
+  | cons u us ih =>
+    cases y with
+    | nil => simp at hlen
+    | cons w ws =>
+      simp only [List.length_cons, Nat.add_right_cancel_iff] at hlen
+      simp [zipOf, ih ws hlen]
+
+theorem aux_zipOf_nil_right (x : List Val) : zipOf x [] = [] := by cases x <;> rfl
+
+/-- `zip::<'static, 'static>()`: nothing is ever discarded — over the whole run the output is the
+    zip of everything that arrived on the two inputs (the excess of the longer side waits) -/
+theorem zip_static_pairs_everything_in_order (h : List (Stream × Stream)) :
+    allOut (runOp (.zip .static .static) (bin h)) = zipOf (h.map Prod.fst).flatten (h.map Prod.snd).flatten := by
+  unfold runOp bin allOut
+  have key : ∀ (st : OpState) (t : Nat), (st.l = [] ∨ st.r = []) →
+      ((runOpFrom (.zip .static .static) t st (h.map fun x => [x.1, x.2])).map fun ports => ports.getD 0 []).flatten
+        = zipOf (st.l ++ (h.map Prod.fst).flatten) (st.r ++ (h.map Prod.snd).flatten) := by
+    induction h with
+    | nil =>
+      intro st t hinv
+      rcases hinv with h0 | h0 <;> simp [runOpFrom, h0, zipOf, aux_zipOf_nil_right]
+    | cons x xs ih =>
+      intro st t _
+      have hsem : opSem (.zip .static .static) t [] st [x.1, x.2] =
+          ({ st with l := (st.l ++ x.1).drop (min (st.l ++ x.1).length (st.r ++ x.2).length),
+                     r := (st.r ++ x.2).drop (min (st.l ++ x.1).length (st.r ++ x.2).length) },
+           [zipOf ((st.l ++ x.1).take (min (st.l ++ x.1).length (st.r ++ x.2).length))
+                  ((st.r ++ x.2).take (min (st.l ++ x.1).length (st.r ++ x.2).length))]) := by
+        simp [opSem, inp, keep]
+      simp only [List.map_cons, runOpFrom, hsem, List.flatten_cons, List.getD_cons_zero]
+      rw [ih _ (t + 1) (by
+        simp only
+        by_cases hle : (st.l ++ x.1).length ≤ (st.r ++ x.2).length
+        · left; rw [Nat.min_eq_left hle]; simp
+        · right; rw [Nat.min_eq_right (by omega)]; simp)]
+      simp only
+      rw [← List.append_assoc st.l x.1, ← List.append_assoc st.r x.2]
+      generalize st.l ++ x.1 = l
+      generalize st.r ++ x.2 = r
+      have e1 : l ++ (xs.map Prod.fst).flatten
+          = l.take (min l.length r.length) ++ (l.drop (min l.length r.length) ++ (xs.map Prod.fst).flatten) := by
+        rw [← List.append_assoc, List.take_append_drop]
+      have e2 : r ++ (xs.map Prod.snd).flatten
+          = r.take (min l.length r.length) ++ (r.drop (min l.length r.length) ++ (xs.map Prod.snd).flatten) := by
+        rw [← List.append_assoc, List.take_append_drop]
+      rw [e1, e2]
+      exact (aux_zipOf_append (l.take (min l.length r.length)) (r.take (min l.length r.length)) _ _ (by
+        simp only [List.length_take]; omega)).symm
+  simpa using key {} 0 (Or.inl rfl)
+
 /-! ### non-vacuity: concrete runs of the reference semantics -/
 
 example : runOp .persist (un [[.num 1], [], [.num 2]]) = [[[.num 1]], [[.num 1]], [[.num 1, .num 2]]] := by decide
